@@ -2,7 +2,9 @@ import runner as R
 from props import *
 import C08_handoff
 
-LEAN_MODULES = ['C08s', 'C08']
+# C10: the subjects' lock skeletons regenerated from subject_*.go (Subscribe with its replay is one critical section; a
+# unicast Next with an observer delivers before it returns) — the premise of the subject part below
+LEAN_MODULES = ['C08s', 'C08', 'C10']
 
 MANIFEST = dict(
     text="Synchronous half proved in Lean for every machine, raw script and source mode: one steps entry per upstream call and the delivered trace is exactly the subscribe-time "
@@ -21,6 +23,11 @@ def proj_steps(d):
 def check(ctx):
     rows = R.run_kind(ctx, 'ops')
     R.compare(ctx, rows, proj_steps, 'C08 deliveries made during each upstream call', nontrivial=nontrivial_op)
+    # subjects inside synchronous pipelines (unicast subject, GroupBy groups): a producer's Next returns only after the
+    # value has been handled, also while a late consumer is catching up with the backlog (kind=nextret)
+    rows = R.run_kind(ctx, 'nextret', shards=2)
+    R.compare(ctx, rows, proj_all, 'C08 a Next into a unicast subject / GroupBy group returns only after the value was delivered (consumer blocked in the backlog replay)',
+              nontrivial=lambda c, gd: True, recheck=2)
     h = C08_handoff.parts(ctx)
     return dict(assumptions=h.get('assumptions'), extra=h.get('extra'), rule=h['rule'] + '; synchronous half: every catalogue operator x parameters x variants x raw scripts x {sync, hot}: number of notifications delivered to the final observer while each '
                      'individual Next/Error/Complete call was running (measured after the call returned) = the model\'s steps; non-trivial = script has a value and something was delivered or dropped',
